@@ -57,6 +57,7 @@ class ExecImpl : public ClauseSink {
   bool has_viol = false;
   bool stop = false;       // stop stepping (violation or desync)
   int cur_op_index = -1;
+  bool ctx_moved_mock = false;  // the current operation touches a mock that was created by a move (C14 co-owns what goes wrong there)
   int depth = 0;
   uint64_t hash = 0xcbf29ce484222325ULL;
   std::string fp;
@@ -79,6 +80,7 @@ class ExecImpl : public ClauseSink {
   struct RTracer { int id; int kind; std::unique_ptr<RecTracer> rec; std::unique_ptr<StreamRec> str; };
   std::vector<RTracer> rtracers;
   std::set<int> busy_exps, busy_mocks;
+  std::map<int, const void*> capt_addr;   // RK_CREF_CAPT: the object first returned by each expectation
 
   // ---- driving ----
   void run(const Plan& p);
